@@ -46,6 +46,7 @@ class Controller:
         self.index = -1
         self.log: list[tuple[int, str, EventType, Any]] = []
         self.aborted_at: int | None = None
+        self.latched: list[tuple[int, str, EventType, Any, bool]] = []  # plan.aborted as seen by a handler when it receives an event
 
     def deliver(self, receiver: str, event: Event) -> None:
         if event is not self.current:
@@ -64,6 +65,8 @@ class RecordingHandler(ResultHandler):
         self._tag = tag
 
     def handle_event(self, event: Event) -> None:
+        idx = self._controller.index + (0 if event is self._controller.current else 1)
+        self._controller.latched.append((idx, self._tag, event.event_type, event.source, bool(self.plan.aborted)))
         self._controller.deliver(self._tag, event)
 
     def __getitem__(self, key: str) -> Any:  # noqa: ANN401
@@ -121,10 +124,20 @@ def execute(case: dict[str, Any], abort_at: tuple[int, str] | None, abort_call: 
     for et in EventType:
         ctx2.add_observer(et, lambda e: ctl.deliver("o2:0", e))
 
+    bare = case["scenario"] == "nested-bare-inner"
+    ctx3 = OptimizerContext(evaluator=ev, plugin_manager=manager)  # nobody observes FINISHED_EVALUATION here
+    for et in EventType:
+        if et != EventType.FINISHED_EVALUATION:
+            ctx3.add_observer(et, lambda e: ctl.deliver("o:0", e))
+            ctx3.add_observer(et, lambda e: ctl.deliver("o:1", e))
+    out["no_handlers"] = {"inner"} if bare else set()
+    out["unobserved"] = {EventType.FINISHED_EVALUATION} if bare else set()
+
     def new_plan(tag: str, parent_tag: str | None = None) -> Plan:
-        plan = Plan(ctx2 if (tag == "inner" and case["scenario"] == "nested-own-context") else ctx)
-        for k in range(2):
-            plan.add_handler("rec/recorder", controller=ctl, tag=f"h:{tag}:{k}")
+        plan = Plan(ctx3 if bare else (ctx2 if (tag == "inner" and case["scenario"] == "nested-own-context") else ctx))
+        if tag not in out["no_handlers"]:
+            for k in range(2):
+                plan.add_handler("rec/recorder", controller=ctl, tag=f"h:{tag}:{k}")
         out["plans"][tag] = (plan, parent_tag)
         return plan
 
@@ -168,7 +181,8 @@ def execute(case: dict[str, Any], abort_at: tuple[int, str] | None, abort_call: 
         inner = new_plan("inner", "main")
         inner_step = inner.add_step("optimizer")
         out["step_plan"][inner_step] = "inner"
-        inner_tracker = inner.add_handler("tracker", sources={inner_step}, constraint_tolerance=None)
+        # (bare inner plan: it has no handler of its own, the tracker of the outer plan follows the inner step)
+        inner_tracker = (main if bare else inner).add_handler("tracker", sources={inner_step}, constraint_tolerance=None)
         inner_cfg = make_config(case, [False, True], 2)
         outer_cfg = make_config(case, [True, False], budget if case["variant"] == "budget" else 3)
 
@@ -178,12 +192,13 @@ def execute(case: dict[str, Any], abort_at: tuple[int, str] | None, abort_call: 
             out["step_plan"][inner_extra] = "inner"
 
         def inner_fn(plan: Plan, variables: np.ndarray) -> Any:  # noqa: ANN401
-            plan.set(inner_tracker, "results", None)
+            holder = main if bare else plan
+            holder.set(inner_tracker, "results", None)
             code = plan.run_step(inner_step, config=inner_cfg, variables=variables)
             out["codes"].append((inner_step, code))
             if inner_extra is not None:
                 out["codes"].append((inner_extra, plan.run_step(inner_extra, config=inner_cfg, variables=variables)))
-            return plan.get(inner_tracker, "results")
+            return holder.get(inner_tracker, "results")
 
         inner.add_function(inner_fn)
         outer_step = main.add_step("optimizer")
@@ -216,7 +231,8 @@ def receivers_for(out: dict[str, Any], plan_tag: str, idx: int = 0) -> list[str]
     names: list[str] = []
     tag: str | None = plan_tag
     while tag is not None:
-        names += [f"h:{tag}:0", f"h:{tag}:1"]
+        if tag not in out.get("no_handlers", ()):
+            names += [f"h:{tag}:0", f"h:{tag}:1"]
         parent = out["plans"][tag][1]
         if tag == "inner" and out.get("inner_parent_from"):
             parent = [p for start, p in out["inner_parent_from"] if start <= idx][-1]
@@ -238,6 +254,8 @@ def check_run(case: dict[str, Any], out: dict[str, Any], aborting: bool, label: 
         plan_tag = out["step_plan"].get(source)
         check(plan_tag is not None, "unknown-source", f"{label}: event from unknown source", case)
         expected = receivers_for(out, plan_tag, idx)
+        if et in out.get("unobserved", ()):
+            expected = [r for r in expected if not r.startswith("o:")]
         got = [r for r, _, _ in recs]
         if aborting and out["aborted_at"] == idx and out["ctl"].abort_at is not None:
             stop = expected.index(out["ctl"].abort_at[1]) + 1
@@ -303,6 +321,12 @@ def check_run(case: dict[str, Any], out: dict[str, Any], aborting: bool, label: 
                   f"{label}: the abort arose in plan '{chain[0]}' but the outer optimizer step returned {outer_code!r} instead of USER_ABORT", case)
         for t in chain:
             check(out["plans"][t][0].aborted, "not-latched", f"{label}: plan '{t}' is not marked aborted after the user abort (chain {chain})", case)
+        # the plan is already marked when the FINISHED event of the aborted step is delivered (a handler that starts a further
+        # step from there must be refused)
+        for idx, tag, et, src, flag in out["ctl"].latched:
+            if et in STEP_END and src == source and idx > out["aborted_at"] and tag.startswith(f"h:{chain[0]}:"):
+                check(flag, "not-latched", f"{label}: handler {tag} receives {et.name} of the aborted step while plan '{chain[0]}' is not yet "
+                      "marked aborted", case)
         first_abort = next(i for i, (_, c) in enumerate(codes) if c == OptimizerExitCode.USER_ABORT)
         if not case["scenario"].startswith("nested"):
             for i, (_, c) in enumerate(codes):
@@ -485,7 +509,7 @@ def hypothesis_shard(item: dict[str, Any]) -> Collector:
 
     @st.composite
     def cases(draw: Any) -> dict[str, Any]:  # noqa: ANN401
-        case = default_case(draw(st.sampled_from(["optimizer", "evaluator", "optimizer+evaluator", "evaluator+optimizer", "nested", "nested-reused", "nested-own-context", "nested-two-steps", "basic-optimizer"])),
+        case = default_case(draw(st.sampled_from(["optimizer", "evaluator", "optimizer+evaluator", "evaluator+optimizer", "nested", "nested-reused", "nested-own-context", "nested-two-steps", "nested-bare-inner", "basic-optimizer"])),
                             draw(st.sampled_from(["plain", "failures", "budget"])), draw(st.sampled_from(["slsqp", "nelder-mead"])))
         case["speculative"] = draw(st.booleans())
         case["x0"] = [draw(st.sampled_from([-1.0, 0.0, 0.4, 1.5])), draw(st.sampled_from([-0.3, 0.8]))]
@@ -506,7 +530,7 @@ def hypothesis_shard(item: dict[str, Any]) -> Collector:
 
 def shards(tier: str, seed: int) -> list[dict[str, Any]]:
     items: list[dict[str, Any]] = []
-    for scenario in ("optimizer", "evaluator", "optimizer+evaluator", "evaluator+optimizer", "nested", "nested-reused", "nested-own-context", "nested-two-steps", "basic-optimizer"):
+    for scenario in ("optimizer", "evaluator", "optimizer+evaluator", "evaluator+optimizer", "nested", "nested-reused", "nested-own-context", "nested-two-steps", "nested-bare-inner", "basic-optimizer"):
         for variant in ("plain", "failures", "budget"):
             for method in ("slsqp", "nelder-mead"):
                 for spec in ((False, True) if method == "slsqp" and tier != "quick" else (False,)):
